@@ -156,6 +156,39 @@ def error_paths(rng):
     return pre + ("#[%s]\n" % ", ".join(attrs) if attrs else "") + "type T {\n" + ",\n".join(body) + "\n}\n"
 
 
+def located_damage(rng, files):
+    """a valid input with one token that no production accepts (`?`) put on a line of its own INSIDE the braces of a
+    type or enum definition.  Returns (files, (file, damage line, damage column, line of the item's closing brace))
+    or None.  The parse error must be reported in that file, not before the damaged token and not beyond the item
+    it is in (lines and columns 1-based, as in the message)."""
+    names = sorted(files)
+    rng.shuffle(names)
+    for name in names:
+        lines = files[name].split("\n")
+        spans = []
+        i = 0
+        while i < len(lines):
+            if re.match(r"^(pub )?(type|enum) \w+.*\{\s*$", lines[i]):
+                j = i + 1
+                while j < len(lines) and lines[j] != "}" and lines[j] != "},":
+                    j += 1
+                if j < len(lines) and j > i + 1:
+                    spans.append((i, j))
+                i = j
+            i += 1
+        if not spans:
+            continue
+        a, b = rng.choice(spans)
+        k = rng.randint(a + 1, b)                  # the new line goes in front of line k (a < k <= b)
+        # never between the lines of a doc comment / attribute and the thing they belong to being irrelevant: any
+        # position between two lines of the body is a token boundary
+        new = lines[:k] + ["    ?"] + lines[k:]
+        out = dict(files)
+        out[name] = "\n".join(new)
+        return out, (name, k + 1, 5, b + 2)
+    return None
+
+
 def api_cases(rng, n):
     """module sets given as ASTs with unusual pointer sizes / repeated modules / odd identifiers"""
     out = []
@@ -212,6 +245,14 @@ def runner(pid, prop, tier, seed, scratch, replay=None):
                 files, kind = {"a.pyxis": cyclic(rng), "b/c.pyxis": "use a;\ntype X { p: *const C0 }\n"}, "cyclic"
             elif i % 20 == 9:
                 files, kind = {"a.pyxis": absurd(rng)}, "absurd_numbers"
+            elif i % 20 == 19 or i % 40 == 3:
+                ld = located_damage(rng, rng.choice(valid))
+                if ld is None:
+                    files, kind = {"a.pyxis": error_paths(rng)}, "error_paths"
+                else:
+                    files, kind = ld[0], "located_damage"
+                    cases.append(dict(id="c12-%d" % i, ptr=ptr, schedule=[], files=files, kind=kind, damage=ld[1]))
+                    continue
             else:
                 files, kind = {"a.pyxis": error_paths(rng)}, "error_paths"
             cases.append(dict(id="c12-%d" % i, ptr=ptr, schedule=[], files=files, kind=kind))
@@ -260,6 +301,22 @@ def runner(pid, prop, tier, seed, scratch, replay=None):
                         # another file may have failed first; only require *some* position
                         if not re.search(r"failed to parse .*:\d+:\d+", msg):
                             out["failures"].append(dict(clause="C12.parse_message", detail=msg[:300], case=summary))
+        # a damage of known location: the error names that file and a position from the damaged token up to the end
+        # of the definition it is in
+        dmg = r.case.get("damage")
+        if dmg:
+            rel, dl, dc, endl = dmg
+            msg = str(r.hv[1])
+            m = re.search(r"failed to parse .*?%s:(\d+):(\d+)" % re.escape(rel), msg) if r.hv[0] == "err" else None
+            if m is None:
+                out["failures"].append(dict(clause="C12.parse_position", detail="one `?` inside a definition of %s (line %d): %s %s"
+                                            % (rel, dl, r.hv[0], msg[:200]), case=summary))
+            else:
+                line, col = int(m.group(1)), int(m.group(2))
+                dist["located_damage:%s" % ("exact" if (line, col) == (dl, dc) else "later_in_item")] += 1
+                if (line, col) < (dl, dc) or line > endl:
+                    out["failures"].append(dict(clause="C12.parse_position", detail="a `?` at %s:%d:%d inside a definition ending on line %d is reported at %d:%d: %s"
+                                                % (rel, dl, dc, endl, line, col, msg[:200]), case=summary))
         # model and implementation agree on the verdict class for inputs that parse
         if r.m is not None and r.mv is not None and r.hv[0] in ("ok", "err", "noprogress", "panic"):
             if r.hv[0] != r.mv[0] and not (backend_refusal and r.mv[0] == "ok"):
